@@ -243,7 +243,208 @@ fn child_main(entry: usize, start: usize) -> ! {
 }
 
 
+// ------------------------------------------------------------------------------------
+// C11 on a 32-bit usize: raw-pointer round trips over payload shapes whose alignment is below, at and above
+// the pointer width (on i686 u64 is 4-aligned, a repr(align(8)) type is not)
+// ------------------------------------------------------------------------------------
+
+trait Pat: Sized + Send + Sync + 'static {
+    fn make(seed: u8) -> Self;
+    fn ok(&self, seed: u8) -> bool;
+}
+macro_rules! pat_struct {
+    ($name:ident, $align:literal, $n:literal) => {
+        #[repr(align($align))]
+        struct $name([u8; $n]);
+        impl Pat for $name {
+            fn make(seed: u8) -> Self {
+                let mut b = [0u8; $n];
+                for (i, x) in b.iter_mut().enumerate() {
+                    *x = seed.wrapping_add(i as u8).wrapping_mul(31);
+                }
+                $name(b)
+            }
+            fn ok(&self, seed: u8) -> bool {
+                self.0.iter().enumerate().all(|(i, x)| *x == seed.wrapping_add(i as u8).wrapping_mul(31))
+            }
+        }
+        impl Dy for $name {
+            fn v(&self) -> u32 {
+                $n
+            }
+        }
+    };
+}
+pat_struct!(P1, 1, 1);
+pat_struct!(P1x3, 1, 3);
+pat_struct!(P2, 2, 6);
+pat_struct!(P4, 4, 4);
+pat_struct!(P4x12, 4, 12);
+pat_struct!(P8, 8, 8);
+pat_struct!(P8x24, 8, 24);
+pat_struct!(P16, 16, 16);
+pat_struct!(P64, 64, 64);
+pat_struct!(Z1, 1, 0);
+pat_struct!(Z8, 8, 0);
+pat_struct!(Z64, 64, 0);
+
+fn bad(msg: String) -> ! {
+    println!("BAD {}", msg);
+    std::process::exit(1)
+}
+
+fn rt_case<S: Pat + Dy>(path: usize, seed: u8) {
+    let word = std::mem::size_of::<usize>();
+    let off = word.max(std::mem::align_of::<S>());
+    let a = Arc::new(S::make(seed));
+    let hp = a.heap_ptr() as usize;
+    let ap = Arc::as_ptr(&a) as usize;
+    if ap != hp + off || ap % std::mem::align_of::<S>() != 0 {
+        bad(format!("as_ptr {:#x} heap_ptr {:#x}: expected the value {} bytes behind the block start", ap, hp, off));
+    }
+    let check = |x: &Arc<S>, want: usize, what: &str| {
+        if !x.ok(seed) || Arc::count(x) != want || Arc::as_ptr(x) as usize != ap || x.heap_ptr() as usize != hp {
+            bad(format!("{}: value ok={} count={} (expected {}) as_ptr {:#x} (expected {:#x})", what, x.ok(seed), Arc::count(x), want, Arc::as_ptr(x) as usize, ap));
+        }
+    };
+    match path {
+        0 => {
+            let b = a.clone();
+            let raw = Arc::into_raw(b);
+            if raw as usize != ap {
+                bad(format!("into_raw {:#x} != as_ptr {:#x}", raw as usize, ap));
+            }
+            let back = unsafe { Arc::from_raw(raw) };
+            check(&back, 2, "into_raw/from_raw");
+            drop(back);
+            check(&a, 1, "after dropping the round-tripped handle");
+        }
+        1 => {
+            let o = Arc::into_raw_offset(a.clone());
+            if &*o as *const S as usize != ap || OffsetArc::strong_count(&o) != 2 || !o.ok(seed) {
+                bad(format!("OffsetArc deref {:#x} count {}", &*o as *const S as usize, OffsetArc::strong_count(&o)));
+            }
+            let o2 = o.clone();
+            let c = o2.clone_arc();
+            check(&c, 4, "OffsetArc::clone + clone_arc");
+            drop((o2, c));
+            let back = Arc::from_raw_offset(o);
+            check(&back, 2, "from_raw_offset");
+        }
+        2 => {
+            let b = unsafe { ArcBorrow::from_ptr(Arc::as_ptr(&a)) };
+            if ArcBorrow::strong_count(&b) != 1 || !b.ok(seed) {
+                bad(format!("ArcBorrow::from_ptr count {}", ArcBorrow::strong_count(&b)));
+            }
+            let c = b.clone_arc();
+            check(&c, 2, "ArcBorrow::from_ptr(as_ptr).clone_arc()");
+            let n = b.with_arc(|x| Arc::count(x));
+            if n != 2 {
+                bad(format!("ArcBorrow::with_arc count {}", n));
+            }
+        }
+        3 => {
+            let u: ArcUnion<u8, S> = ArcUnion::from_second(a.clone());
+            let u2 = u.clone();
+            match u2.as_second() {
+                Some(b) if b.ok(seed) && ArcBorrow::strong_count(&b) == 3 && b.get() as *const S as usize == ap => {}
+                other => bad(format!("ArcUnion second: as_second is_some={} count {}", other.is_some(), ArcUnion::strong_count(&u2))),
+            }
+            drop((u, u2));
+            check(&a, 1, "after dropping the unions");
+            let v: ArcUnion<S, u8> = ArcUnion::from_first(a.clone());
+            if !v.is_first() || ArcUnion::strong_count(&v) != 2 {
+                bad(format!("ArcUnion first: is_first {} count {}", v.is_first(), ArcUnion::strong_count(&v)));
+            }
+        }
+        4 => {
+            let raw: *const S = Arc::into_raw(a.clone());
+            let d: Arc<dyn Dy> = unsafe { Arc::from_raw(raw as *const dyn Dy) };
+            if Arc::count(&d) != 2 || d.heap_ptr() as usize != hp || Arc::as_ptr(&d) as *const () as usize != ap {
+                bad(format!("dyn view: count {} heap_ptr {:#x} as_ptr {:#x}", Arc::count(&d), d.heap_ptr() as usize, Arc::as_ptr(&d) as *const () as usize));
+            }
+            let d2 = d.clone();
+            let raw2: *const dyn Dy = Arc::into_raw(d2);
+            let back: Arc<S> = unsafe { Arc::from_raw(raw2 as *const S) };
+            check(&back, 3, "dyn round trip");
+            drop(d);
+        }
+        5 => {
+            let n = a.with_raw_offset_arc(|o| (OffsetArc::strong_count(o), o.clone_arc()));
+            check(&n.1, 2, "with_raw_offset_arc clone_arc");
+            if n.0 != 1 {
+                bad(format!("with_raw_offset_arc strong_count {}", n.0));
+            }
+        }
+        6 => {
+            let s: Arc<[S]> = Arc::from((0..3u8).map(|i| S::make(seed.wrapping_add(i))).collect::<Vec<S>>());
+            let sp = s.heap_ptr() as usize;
+            let raw = Arc::into_raw(s.clone());
+            let back = unsafe { Arc::from_raw_slice(raw) };
+            if Arc::count(&back) != 2 || back.len() != 3 || back.heap_ptr() as usize != sp || !back.iter().enumerate().all(|(i, e)| e.ok(seed.wrapping_add(i as u8))) {
+                bad(format!("slice round trip: count {} len {}", Arc::count(&back), back.len()));
+            }
+            let empty: Arc<[S]> = Arc::from(Vec::<S>::new());
+            let r2 = Arc::into_raw(empty);
+            let e2 = unsafe { Arc::from_raw_slice(r2) };
+            if e2.len() != 0 || Arc::count(&e2) != 1 {
+                bad(format!("empty slice round trip: len {} count {}", e2.len(), Arc::count(&e2)));
+            }
+        }
+        _ if std::mem::size_of::<S>() == 0 => {
+            // zero-sized elements are refused by the iterator / slice constructors (documented)
+        }
+        _ => {
+            let t: ThinArc<S, S> = ThinArc::from_header_and_iter(S::make(seed), (0..2u8).map(|i| S::make(seed.wrapping_add(1 + i))));
+            let th = t.heap_ptr() as usize;
+            let t2 = t.clone();
+            let raw = t2.into_raw();
+            let back = unsafe { ThinArc::<S, S>::from_raw(raw) };
+            let cnt = back.with_arc(|x| Arc::count(x));
+            if cnt != 2 || ThinArc::strong_count(&back) != 2 || back.heap_ptr() as usize != th || !back.header.header.ok(seed) || back.slice.len() != 2 || !back.slice[1].ok(seed.wrapping_add(2)) {
+                bad(format!("ThinArc round trip: count {} len {}", cnt, back.slice.len()));
+            }
+            let fat = Arc::from_thin(back);
+            if Arc::count(&fat) != 2 || fat.heap_ptr() as usize != th || (&fat.slice[0] as *const S as usize) % std::mem::align_of::<S>() != 0 {
+                bad(format!("from_thin: count {}", Arc::count(&fat)));
+            }
+        }
+    }
+    println!("OK");
+}
+
+const N_SHAPES: usize = 12;
+const N_PATHS: usize = 8;
+
+fn rt_main(shape: usize, path: usize, seed: u8) {
+    match shape {
+        0 => rt_case::<P1>(path, seed),
+        1 => rt_case::<P1x3>(path, seed),
+        2 => rt_case::<P2>(path, seed),
+        3 => rt_case::<P4>(path, seed),
+        4 => rt_case::<P4x12>(path, seed),
+        5 => rt_case::<P8>(path, seed),
+        6 => rt_case::<P8x24>(path, seed),
+        7 => rt_case::<P16>(path, seed),
+        8 => rt_case::<P64>(path, seed),
+        9 => rt_case::<Z1>(path, seed),
+        10 => rt_case::<Z8>(path, seed),
+        _ => rt_case::<Z64>(path, seed),
+    }
+}
+
 fn main() {
+    let args0: Vec<String> = std::env::args().collect();
+    if args0.get(1).map(|s| s.as_str()) == Some("rt") {
+        let g = |i: usize| -> usize { args0.get(i).and_then(|s| s.parse().ok()).expect("rt <shape> <path> <seed>") };
+        let _ = (N_SHAPES, N_PATHS);
+        rt_main(g(2), g(3), g(4) as u8);
+        return;
+    }
+    main_c16()
+}
+
+fn main_c16() {
     let args: Vec<String> = std::env::args().collect();
     let entry: usize = args.get(1).and_then(|s| s.parse().ok()).expect("entry");
     let start: usize = args.get(2).and_then(|s| s.parse().ok()).expect("start (decimal, fits the target's usize)");
